@@ -199,4 +199,183 @@ theorem inv_run {t : Trie α V} {M : List (List α × V)} (h : Inv t M) (ops : L
     obtain ⟨t2, e2, h2⟩ := ih h1
     exact ⟨t2, by simp [Trie.run, e1, e2], h2⟩
 
+/-! ### the queries under the invariant -/
+
+theorem getLongest_eq {t : Trie α V} {M : List (List α × V)} (h : Inv t M) (q : List α) :
+    t.getLongest q = some (trieGetLongest t.root q) := by
+  unfold Trie.getLongest
+  cases hf : t.frozen with
+  | none => rfl
+  | some f => exact getLongestFrozen_eq f t.root (h.frozen f hf) h.wf.sorted q
+
+theorem best_eq_spec {t : Trie α V} {M : List (List α × V)} (h : Inv t M) (q : List α) :
+    best t.root q = longestBy (fun k => idxOf k M) q :=
+  longestBy_congr h.look q
+
+theorem lookup_isSome_eq (k : List α) (M : List (List α × V)) : (lookup k M).isSome = (idxOf k M).isSome := by
+  rw [Bool.eq_iff_iff, lookup_isSome_iff, idxOf_isSome_iff]
+
+theorem values_get {t : Trie α V} {M : List (List α × V)} (h : Inv t M) {k : List α} {i : Nat}
+    (hi : idxOf k M = some i) : ∃ v, t.values[i]? = some v ∧ lookup k M = some v := by
+  have hlt : i < (M.map (·.2)).length := by rw [List.length_map]; exact idxOf_lt hi
+  refine ⟨(M.map (·.2))[i], ?_, ?_⟩
+  · rw [h.vals]; exact List.getElem?_eq_getElem hlt
+  · rw [lookup_eq_idxOf, hi]; exact List.getElem?_eq_getElem hlt
+
+theorem longest_eq {t : Trie α V} {M : List (List α × V)} (h : Inv t M) (q : List α) :
+    t.longest q = some (longestPrefix M q) := by
+  unfold Trie.longest
+  rw [getLongest_eq h, trieGetLongest_eq, best_eq_spec h, longestPrefix_eq_longestBy]
+  have hb := longestBy_bind (fun k => idxOf k M) (fun i => (M.map (·.2))[i]?)
+    (fun k i hi => by
+      have : i < (M.map (·.2)).length := by rw [List.length_map]; exact idxOf_lt hi
+      simp [List.getElem?_eq_getElem this]) q
+  have hfun : (fun k => lookup k M) = fun k => (idxOf k M).bind fun i => (M.map (·.2))[i]? := by
+    funext k; exact lookup_eq_idxOf k M
+  rw [hfun, hb]
+  cases hl : longestBy (fun k => idxOf k M) q with
+  | none => rfl
+  | some r =>
+    obtain ⟨m, i⟩ := r
+    obtain ⟨v, hv, _⟩ := values_get h (longestBy_some hl).2
+    simp only [Trie.value, hv, Option.map_some, Option.bind_some]
+    rw [← h.vals, hv]
+    rfl
+
+/-- `get`: the value index found is exactly the exact lookup -/
+theorem get_valueIndex (root : Node α) (q : List α) :
+    (if (trieGetLongest root q).length ≠ q.length then Result.fail else trieGetLongest root q).valueIndex
+      = lookupN q root := by
+  rw [trieGetLongest_eq]
+  cases hb : best root q with
+  | none =>
+    have := (best_none_iff root q).mp hb q.length (Nat.le_refl _)
+    simp only [List.take_length] at this
+    simp only [this]
+    split <;> rfl
+  | some r =>
+    obtain ⟨m, i⟩ := r
+    obtain ⟨hm, hl, hmax⟩ := (best_some_iff root q m i).mp hb
+    simp only []
+    by_cases e : m = q.length
+    · subst e; simp only [List.take_length] at hl; simp [hl]
+    · have := hmax q.length (by omega) (Nat.le_refl _)
+      simp only [List.take_length] at this
+      simp [e, this, Result.fail]
+
+theorem get_length (root : Node α) (q : List α) :
+    (if (trieGetLongest root q).length ≠ q.length then Result.fail else trieGetLongest root q).success = true →
+    (if (trieGetLongest root q).length ≠ q.length then Result.fail else trieGetLongest root q).length = q.length := by
+  by_cases e : (trieGetLongest root q).length = q.length
+  · simp [e]
+  · simp [e, Result.fail, Result.success]
+
+theorem getValue_eq {t : Trie α V} {M : List (List α × V)} (h : Inv t M) (q : List α) :
+    t.getValue q = some (lookup q M) := by
+  unfold Trie.getValue Trie.get
+  rw [getLongest_eq h]
+  simp only [Option.map_some]
+  rw [get_valueIndex, h.look]
+  cases hi : idxOf q M with
+  | none => simp [lookup_eq_idxOf, hi]
+  | some i =>
+    obtain ⟨v, hv, hl⟩ := values_get h hi
+    simp [Trie.value, hv, hl]
+
+theorem has_eq {t : Trie α V} {M : List (List α × V)} (h : Inv t M) (q : List α) :
+    t.has q = some (lookup q M).isSome := by
+  unfold Trie.has Trie.get
+  rw [getLongest_eq h]
+  simp only [Option.map_some, Result.success]
+  rw [get_valueIndex, h.look, lookup_isSome_eq]
+
+theorem hasSized_eq {t : Trie α V} {M : List (List α × V)} (h : Inv t M) (q : List α) :
+    t.hasSized q = if q = [] then some none else some (some (lookup q M).isSome) := by
+  unfold Trie.hasSized Trie.get
+  rw [getLongest_eq h]
+  simp only [Option.map_some, Result.success]
+  rw [get_valueIndex, h.look, lookup_isSome_eq]
+  cases q <;> simp
+
+theorem size_eq {t : Trie α V} {M : List (List α × V)} (h : Inv t M) : t.size = M.length := by
+  unfold Trie.size
+  cases t.frozen with
+  | some f => simp [h.vals]
+  | none =>
+    simp only []
+    have hn : (M.map (fun (e : List α × V) => e.1)).Nodup := h.nodup
+    rw [sizeN_eq_length t.root h.wf.sorted _ hn, List.length_map]
+    intro k
+    rw [h.look, idxOf_isSome_iff]
+
+theorem hasChar_struct {t : Trie α V} {M : List (List α × V)} (h : Inv t M) (c : α) :
+    t.hasChar c = some ((t.root.kids.map (·.1)).contains c) := by
+  unfold Trie.hasChar
+  cases hf : t.frozen with
+  | none => rfl
+  | some f =>
+    obtain ⟨hb, hi, hl⟩ := h.frozen f hf
+    rw [laidN_iff] at hl
+    simp only [hb]
+    exact scan_eq f.cells c t.root.kids _ _ _ hl
+
+/-- a first character leads somewhere iff some stored key starts with it -/
+theorem child_iff_key {t : Trie α V} {M : List (List α × V)} (h : Inv t M) (c : α) :
+    c ∈ t.root.kids.map (·.1) ↔ ∃ e ∈ M, e.1.head? = some c := by
+  have hwf := h.wf
+  rw [Node.eta t.root, wf_mk] at hwf
+  constructor
+  · intro hc
+    rw [← find_isSome_iff] at hc
+    cases hf : find c t.root.kids with
+    | none => simp [hf] at hc
+    | some ch =>
+      have hm := find_mem hf
+      obtain ⟨k, hk⟩ := exists_key_of_not_dead ch (hwf.2 _ hm) (hwf.1.2 _ hm)
+      have : (lookupN (c :: k) t.root).isSome := by simp [lookupN_cons, hf, hk]
+      rw [h.look, idxOf_isSome_iff] at this
+      simp only [List.mem_map] at this
+      obtain ⟨e, he, hek⟩ := this
+      exact ⟨e, he, by simp [hek]⟩
+  · rintro ⟨e, he, hh⟩
+    cases hk : e.1 with
+    | nil => simp [hk] at hh
+    | cons c' k' =>
+      simp [hk] at hh; subst hh
+      have : (idxOf (c' :: k') M).isSome := by
+        rw [idxOf_isSome_iff, ← hk]; exact List.mem_map_of_mem he
+      rw [← h.look, lookupN_cons] at this
+      rw [← find_isSome_iff]
+      cases hf : find c' t.root.kids with
+      | none => simp [hf] at this
+      | some ch => rfl
+
+theorem hasChar_eq {t : Trie α V} {M : List (List α × V)} (h : Inv t M) (c : α) :
+    t.hasChar c = some (M.any fun e => e.1.head? = some c) := by
+  rw [hasChar_struct h]
+  congr 1
+  rw [Bool.eq_iff_iff]
+  simp only [List.contains_eq_mem, decide_eq_true_eq, List.any_eq_true]
+  exact child_iff_key h c
+
+theorem isEmpty_eq {t : Trie α V} {M : List (List α × V)} (h : Inv t M) :
+    t.isEmpty = M.all fun e => e.1 = [] := by
+  unfold Trie.isEmpty
+  rw [Bool.eq_iff_iff]
+  simp only [List.isEmpty_iff, List.all_eq_true, decide_eq_true_eq]
+  constructor
+  · intro hk e he
+    cases hke : e.1 with
+    | nil => rfl
+    | cons c k' =>
+      have : c ∈ t.root.kids.map (·.1) := (child_iff_key h c).mpr ⟨e, he, by simp [hke]⟩
+      rw [hk] at this; simp at this
+  · intro hall
+    cases hk : t.root.kids with
+    | nil => rfl
+    | cons p r =>
+      have : p.1 ∈ t.root.kids.map (·.1) := by rw [hk]; simp
+      obtain ⟨e, he, hh⟩ := (child_iff_key h p.1).mp this
+      rw [hall e he] at hh; simp at hh
+
 end Occa.Trie
